@@ -506,7 +506,7 @@ UnlockExit(byException) ==
   /\ usaved # <<>>
   /\ locked' = usaved[Len(usaved)]
   /\ usaved' = SubSeq(usaved, 1, Len(usaved) - 1)
-  /\ out' = [op |-> "UnlockExit", byException |-> byException, status |-> "ok"]
+  /\ out' = [op |-> "UnlockExit", byException |-> byException, before |-> locked, status |-> "ok"]
   /\ UNCHANGED <<reg, cfg, stack, okeys, oper, interactive, singles, consts, hooks>>
 
 \* registering one more (valid, new) configurable: only the lock matters here (1677-1679);
